@@ -56,7 +56,9 @@ func TestPrintFollowsTheSign(t *testing.T) {
 			hx.Discard("literal_outside_domain_or_known_finding")
 			return
 		}
-		text := fmt.Sprintf("@g = global %s %s\n", k.Name, lit)
+		// the same literal stands at three more places: another global and the two elements of an array. They are
+		// not edited and must keep the original pattern whatever happens to the constant of @g
+		text := fmt.Sprintf("@g = global %s %s\n@twin = global %s %s\n@pair = global [2 x %s] [%s %s, %s %s]\n", k.Name, lit, k.Name, lit, k.Name, k.Name, lit, k.Name, lit)
 		m, err, pp := lx.Parse(text)
 		if err != nil || pp != nil {
 			hx.Discard("literal_not_accepted(judged_elsewhere)")
@@ -65,6 +67,7 @@ func TestPrintFollowsTheSign(t *testing.T) {
 		c := m.Globals[0].Init.(*constant.Float)
 		hx.Eval(1)
 		desc := fmt.Sprintf("%s %s (pattern %s)\n", k.Name, lit, p0)
+		var base *ref.Pat // what the literal prints as before any edit
 		read := func(step string) ref.Pat {
 			l1 := c.Ident()
 			out, _ := lx.Print(m)
@@ -73,10 +76,29 @@ func TestPrintFollowsTheSign(t *testing.T) {
 				hx.Fail(rt, test, "txt", desc, "%safter %s the printed module is not accepted by the parser: %v %v\n%s", desc, step, e2, p2, out)
 			}
 			l2 := m2.Globals[0].Init.(*constant.Float).Ident()
+			others := []constant.Constant{m2.Globals[1].Init}
+			if arr, ok := m2.Globals[2].Init.(*constant.Array); ok {
+				others = append(others, arr.Elems...)
+			}
+			for i, o := range others {
+				of, isF := o.(*constant.Float)
+				if !isF {
+					continue
+				}
+				// (what the literal is printed as right after parsing is the reference: for an x87 pseudo-denormal
+				// that is the normal encoding of the same number, see x87Value)
+				if g, ok, _ := ref.ReadLiteral(k, of.Ident()); base != nil && (!ok || g != *base) {
+					hx.Fail(rt, test, "txt", desc, "%safter %s (an edit of the constant of @g only) the same literal at another place (%d) prints %q = %s; it was not edited and printed as %s before", desc, step, i, of.Ident(), g, *base)
+				}
+			}
 			g1, ok1, _ := ref.ReadLiteral(k, l1)
 			g2, ok2, _ := ref.ReadLiteral(k, l2)
 			if !ok1 || !ok2 || g1 != g2 {
 				hx.Fail(rt, test, "txt", desc, "%safter %s Ident() gives %q and the module prints %q", desc, step, l1, l2)
+			}
+			if base == nil {
+				b := g1
+				base = &b
 			}
 			return g1
 		}
